@@ -178,6 +178,48 @@ func (bc *boundsCtx) storeBetween(from, to *ssa.BasicBlock, at ssa.Instruction, 
 	return false
 }
 
+// writeBetween: like storeBetween, and any call (which may run a closure that has captured the
+// cell) counts as a write.
+func (bc *boundsCtx) writeBetween(from, to *ssa.BasicBlock, at ssa.Instruction, addr ssa.Value) bool {
+	if bc.storeBetween(from, to, at, addr) {
+		return true
+	}
+	isCall := func(ins ssa.Instruction) bool {
+		switch c := ins.(type) {
+		case *ssa.Call:
+			_, isB := c.Call.Value.(*ssa.Builtin)
+			return !isB
+		case *ssa.Defer, *ssa.Go:
+			return true
+		}
+		return false
+	}
+	seen := map[*ssa.BasicBlock]bool{}
+	var walk func(b *ssa.BasicBlock, upto ssa.Instruction) bool
+	walk = func(b *ssa.BasicBlock, upto ssa.Instruction) bool {
+		for _, ins := range b.Instrs {
+			if ins == upto {
+				break
+			}
+			if isCall(ins) {
+				return true
+			}
+		}
+		for _, p := range b.Preds {
+			if (p == from && b == to) || !to.Dominates(p) || seen[p] {
+				continue
+			}
+			seen[p] = true
+			if walk(p, nil) {
+				return true
+			}
+		}
+		return false
+	}
+	seen[at.Block()] = true
+	return walk(at.Block(), at)
+}
+
 // cmpBound: on the given outcome of cond, a lower bound for len(x) (x returned), if cond is a
 // comparison of a length with a constant.
 func cmpBound(cond ssa.Value, outcome bool) (ssa.Value, int64, bool) {
@@ -610,9 +652,19 @@ func (bc *boundsCtx) proveVar(s *idxSite, at ssa.Instruction) {
 			return false
 		}
 		if fb != base {
-			// two evaluations of len(y) for one y are the same number
+			// two evaluations of len(y) for one y are the same number; two loads of one local
+			// cell (a variable captured by a closure) are the same number if nothing can have
+			// written the cell in between
 			ly, lb := lenOf(fb), lenOf(base)
-			if ly == nil || lb == nil || !bc.sameSeq(ly, lb) {
+			l1, ok1 := fb.(*ssa.UnOp)
+			l2, ok2 := base.(*ssa.UnOp)
+			switch {
+			case ly != nil && lb != nil && bc.sameSeq(ly, lb):
+			case ok1 && ok2 && l1.Op == token.MUL && l2.Op == token.MUL && l1.X == l2.X:
+				if _, isCell := l1.X.(*ssa.Alloc); !isCell || bc.writeBetween(from, to, at, l1.X) {
+					return false
+				}
+			default:
 				return false
 			}
 		}
